@@ -203,8 +203,35 @@ def _do_make_formula_body(formula, default_value, assoc_value=None):
       error = getattr(e, "error", e)  # extract SyntaxError from AstroidSyntaxError
       return textbuilder.Text(_create_syntax_error_code(final_formula, formula, error))
 
+  # Finally make sure the formula works out as the body of ONE function, the way it will be placed
+  # into the generated module. Some errors are only found by the compiler (e.g. 'await' outside
+  # async function, duplicate argument names), and some characters (lone carriage return, form
+  # feed) make Python see a different line structure than the one we indent by; either would
+  # break the module shared by all formulas of the document.
+  try:
+    _check_function_body(final_formula.get_text())
+  except SyntaxError as e:
+    return textbuilder.Text(_create_syntax_error_code(final_formula, formula, e))
+
   # We return the text-builder object whose .get_text() is the final formula.
   return final_formula
+
+
+def _check_function_body(body_text):
+  """
+  Raises SyntaxError (with a position relative to body_text) unless body_text, indented like the
+  generated code indents it, compiles as the body of a single function.
+  """
+  code = "def _f(rec, table):\n" + _indent(textbuilder.Text(body_text), ' ').get_text()
+  try:
+    tree = ast.parse(code)
+    if len(tree.body) != 1 or not isinstance(tree.body[0], ast.FunctionDef):
+      raise SyntaxError("Formula does not form a single block of code", ('<string>', 2, 1, ""))
+    compile(tree, '<string>', 'exec')
+  except SyntaxError as e:
+    lineno = max((e.lineno or 2) - 1, 1)
+    offset = max((e.offset or 2) - 1, 1)
+    raise type(e)(e.args[0], ('<string>', lineno, offset, "")) from None
 
 
 _whitespace_only_re = re.compile('^[ \t]+$', re.MULTILINE)
@@ -261,10 +288,12 @@ def _create_syntax_error_code(builder, input_text, err):
   # and finally translated back into a line number and 1-based position to report to the user. An
   # example is that "$x*" is translated to "return x*", and the syntax error in the transformed
   # python code (line 2 offset 9) needs to be translated to be in line 2 offset 3.
-  output_offset = output_ln.line_to_offset(err.lineno, err.offset - 1 if err.offset else 0)
+  # (Some errors carry no position, e.g. the one for a NUL character in the source.)
+  output_offset = output_ln.line_to_offset(err.lineno or 1, err.offset - 1 if err.offset else 0)
   input_offset = builder.map_back_offset(output_offset)
   line, col = input_ln.offset_to_line(input_offset)
-  input_text_line = input_text.splitlines()[line - 1]
+  input_lines = input_text.splitlines()
+  input_text_line = input_lines[min(line, len(input_lines)) - 1] if input_lines else ""
 
   message = err.args[0]
   err_type = type(err)
@@ -279,9 +308,11 @@ def _create_syntax_error_code(builder, input_text, err):
     save_to_linecache(builder.get_text())
     message += friendly_errors.friendly_message(err)
 
+  # Comment out every line, by every character that Python or its tokenizer may take for a line
+  # break (str.splitlines knows them all), so that no part of the text can act as code.
+  commented = '\n'.join('# ' + l for l in input_text.rstrip().replace('\0', ' ').splitlines()) or '# '
   return "%s\nraise %s(%r, ('usercode', %r, %r, %r))" % (
-    textbuilder.line_start_re.sub('# ', input_text.rstrip()),
-    err_type.__name__, message, line, col + 1, input_text_line)
+    commented, err_type.__name__, message, line, col + 1, input_text_line)
 
 #----------------------------------------------------------------------
 
